@@ -481,7 +481,7 @@ def run(tier, seed, started):
     if not (c.get('lists') == N and c.get('cache_states', 0) > 50
             and c.get('branch_length_inputs', 0) > 65536 and c.get('interleavings', 0) > 1000
             and res.sets.get('ev_kinds') == {'grow', 'extend', 'truncate', 'reorg'}):
-        raise common.Broken(f'vacuous C12 run: {c} {res.sets.get("ev_kinds")}')
+        common.vacuous(PROP, res, f'vacuous C12 run: {c} {res.sets.get("ev_kinds")}')
     coverage = {
         'states': c['cache_states'], 'transitions': c['cache_transitions'],
         'traces_validated_against_impl': c['cache_states'],
